@@ -163,6 +163,13 @@ def scenarios(ctx):
                 sc["positional"] = npos
                 sc["tag"] = f"{''.join(word)}|eof+positional{npos}"
                 scs.append(sc)
+    # an EMPTY first fragment (legal): the message's type is the first fragment's, its payload the continuation's
+    for evs in ([[50, 0, "T", "61"], [50, 0, "B", "00"], [50, 0, "t", "6f6b"]], [[50, 0, "B", "ff"], [0, 1, "p", "70"], [0, 1, "T", "7a"]],
+                [[10, 0, "T", "e9".encode().hex() if False else "41"], [10, 0, "T", "62"]]):
+        for ssl in (False, True):
+            for end in ("silence", "eof"):
+                scs.append({"cbs": appsim.ALL, "ssl": ssl, "runs": [[["E", evs + ENDS[end]]]], "horizon": 60 * TPS,
+                            "tag": f"emptyfirst{len(evs)}|{end}"})
     # large messages: both sides of every length-form boundary of the frame header (7-bit / 16-bit / 64-bit), the sign bit of
     # the 16-bit form included — the handler gets the whole message
     for ln in (125, 126, 127, 32767, 32768, 40000, 65535, 65536):
